@@ -177,6 +177,11 @@ def collapse_swa(ctx, content_type, ns_soap_env, parser=None):
             soapmsg = part.get_payload()
             continue
 
+        if soapmsg is None:
+            # an attachment in front of (or instead of) the soap part, e.g. the
+            # first part is itself a multipart container
+            raise ValidationError(None, "Invalid MtoM request")
+
         # binary packages
         cte = part.get("Content-Transfer-Encoding")
 
